@@ -8,8 +8,11 @@ flock -x 9
 cd /repo || exit 2
 if ! git apply --check "$patch" 2>/tmp/try_seed_err.txt; then echo "PATCH DOES NOT APPLY: $(cat /tmp/try_seed_err.txt)"; exit 3; fi
 git apply "$patch"
+# evidence backup: a run against a mutated tree must never leave its evidence file behind
+cp /verif/evidence/$pid.json /tmp/try_seed_evidence_$pid.json 2>/dev/null
 cd /verif && VERIF_NOLOCK=1 timeout 1200 ./check "$pid" --tier "$tier" > /tmp/try_seed_$pid.log 2>&1; rc=$?
 cd /repo && git apply -R "$patch"
+cp /tmp/try_seed_evidence_$pid.json /verif/evidence/$pid.json 2>/dev/null
 grep -E "^(VIOLATION|KNOWN-FINDING|OK )" /tmp/try_seed_$pid.log | cut -c1-400
 echo "check rc=$rc"
 exit $rc
